@@ -86,6 +86,10 @@ class Injector(object):
         log = []
         state = {'fired': False, 'after': 0, 'commits': 0, 'dead': False}
 
+        faults = [] if fault is None else (fault if isinstance(fault, list) else [fault])
+        pending = [dict(f) for f in faults]
+        state['nseen'] = 0
+
         def stmt_hook(r, conn, cursor, statement, parameters=None):
             cls = _classify(statement)
             if state['dead']:
@@ -93,14 +97,16 @@ class Injector(object):
                 if not statement.lstrip().upper().startswith('ROLLBACK'):
                     state['after_bad'] = cls
                 return
+            state['nseen'] += 1
             log.append(cls)
-            if fault is None or state['fired']:
+            f = None
+            for cand in pending:
+                if cand['k'] == state['nseen']:
+                    f = cand
+                    break
+            if f is None:
                 return
-            if fault['kind'] == 'crash_after_commit':
-                return
-            if len(log) != fault['k']:
-                return
-            kind = fault['kind']
+            kind = f['kind']
             if kind == 'duplicate' and cls != 'INSERT placement_aggregates':
                 # the duplicate-key race the property names: an aggregate being
                 # recorded for the first time.  (Elsewhere a duplicate key is
@@ -110,9 +116,10 @@ class Injector(object):
                 return
             if kind == 'deadlock_rb' and cls.startswith('BEGIN'):
                 return          # nothing to roll back yet
+            pending.remove(f)
             state['fired'] = True
             log.pop()              # the statement does not run
-            state['at'] = cls
+            state['at'] = (state.get('at') + ' + ' if state.get('at') else '') + cls
             if kind == 'crash':
                 state['dead'] = True
                 raise Crash()
@@ -134,15 +141,8 @@ class Injector(object):
             raise ValueError(kind)
 
         def commit_hook(r, what, kind):
-            if what != 'commit' or state['dead']:
-                return
-            state['commits'] += 1
-            if fault and fault['kind'] == 'crash_after_commit' \
-                    and state['commits'] == fault['k'] and not state['fired']:
-                state['fired'] = True
-                state['at'] = 'after commit %d' % fault['k']
-                state['dead'] = True
-                raise Crash()
+            if what == 'commit' and not state['dead']:
+                state['commits'] += 1
 
         ctl.stmt_hook = stmt_hook
         ctl.commit_hook = commit_hook
@@ -309,11 +309,19 @@ def worker(job):
                     if kind == 'duplicate' and clean['statements'][k - 1] != 'INSERT placement_aggregates':
                         continue
                     plans.append([{'kind': kind, 'k': k}])
+        if job['mode'] == 'fault' and job.get('pairs') and req['op'] in ('alloc_put', 'alloc_post', 'reshape', 'sync', 'agg_put'):
+            prnd = __import__('random').Random(idx * 7 + 1)
+            combos = [('deadlock', 'deadlock'), ('deadlock', 'generic'), ('deadlock_rb', 'deadlock'), ('deadlock', 'deadlock_rb')]
+            allpairs = [(k1, k2) for k1 in range(1, n + 1) for k2 in range(k1 + 1, n + 6)]
+            prnd.shuffle(allpairs)
+            for (k1, k2) in allpairs[:job['pairs']]:
+                a, b = prnd.choice(combos)
+                plans.append([{'kind': a, 'k': k1}, {'kind': b, 'k': k2}])
         for plan in plans:
             f = plan[0]
             app.restore(it['snap'])
             app.reset_caches()
-            out = inj.run(_call_for(app, req), f)
+            out = inj.run(_call_for(app, req), plan if len(plan) > 1 else f)
             final, extra = project.dump(app.engine)
             lid = len(lines) + 1
             if out['error'] is not None and not isinstance(out['error'], Crash) \
@@ -336,7 +344,8 @@ def worker(job):
                     resp = {'status': st, 'code': '', 'body': {'unparsable': True}}
                 wf = st < 400 or wellformed_error(st, h, b, req.get('v'))
             lines.append({'id': lid, 'mode': job['mode'], 'db0': db0, 'req': req,
-                          'fault': {'kind': f['kind'], 'k': f['k'], 'at': out['at'] or ''},
+                          'fault': {'kind': '+'.join(x['kind'] for x in plan), 'k': f['k'],
+                                    'k2': plan[1]['k'] if len(plan) > 1 else 0, 'at': out['at'] or ''},
                           'resp': resp, 'wellformed': wf, 'final': final,
                           'std_ok': bool(extra['std_classes_ok'] and extra['std_traits_ok']),
                           'statements_after_crash': 1 if out['after_crash_bad'] else 0})
